@@ -72,10 +72,11 @@ pub fn generate(seed: u64, run: u64, focus: &str, _thorough: bool) -> Plan {
     let mut steps = Vec::new();
     // one stored record per run, type cycling with the run index so every type is covered evenly
     let ty = ((run + rng.below(2) * 0) % crate::disk::NTYPES as u64) as u8;
-    let fmt = rng.below(2) as u8;
+    // 0 bincode (legacy: fixed-width little-endian), 1 JSON, 2 bincode varint, 3 bincode big-endian
+    let fmt = *rng.pick(&[0u8, 0, 1, 1, 1, 2, 3]);
     let v = value_for(&mut rng, ty, &mut c);
     bump(&mut c, &format!("gen:type_{}", crate::disk::ty_name(ty)));
-    bump(&mut c, if fmt == 0 { "gen:format_bincode" } else { "gen:format_json" });
+    bump(&mut c, ["gen:format_bincode", "gen:format_json", "gen:format_bincode_varint", "gen:format_bincode_bigendian"][fmt as usize]);
     bump(&mut c, "runs:fault_injecting");
     steps.push(Step::Disk { ty, v: B(v), fmt });
     Plan { family: "disk".into(), focus: focus.into(), seed, run, faults: c, ticks: 0, steps }
